@@ -14,7 +14,8 @@
             the documented argument errors with the array untouched.
    fiduccia_mattheyses iterates over HashSets (random order per process and per call): on success only
    what is deterministic is compared (code, length, ids in {0,1}, untouched tail, cut not worse). *)
-From Coupe Require Import Lib.Prelude Lib.SFloat Lib.Report Gen.FfiTables Model.Ffi Model.FfiInst.
+From Coupe Require Import Lib.Prelude Lib.SFloat Lib.Report Gen.FfiTables Model.Ffi.
+From Coq Require Import String.
 From Coq Require Import Uint63.
 Open Scope N_scope.
 
@@ -34,7 +35,7 @@ Inductive c_res := CRet (code : N) (arr : list N) | CAbort | CHang.
 
 Record case17 := mk17 {
   k_entry : N;                 (* 0 rcb 1 rib 2 hilbert 3 greedy 4 karmarkar_karp 5 karmarkar_karp_complete 6 fiduccia_mattheyses
-                                  7 adjncy_csr (structure check only) *)
+                                  7 adjncy_csr (structure check only); 10 + e: entry e on a large data set (summary only) *)
   k_dim : N;
   k_points : data;
   k_weights : data;
@@ -55,9 +56,9 @@ Definition oracle (c : case17) (nt : numty) (ws : list value) (ps : list (list v
   | None => Panic 998            (* the model calls the algorithm where the harness found no Rust call to make *)
   | Some r =>
     if numty_eqb nt (r_nt r) && values_eqb ws (r_ws r) && list_eqb values_eqb ps (r_pts r)
-       && list_eqb opt_eqb params (r_params r) && list_eqb N.eqb slice (firstn (length slice) (k_p0 c)) then
+       && list_eqb opt_eqb params (r_params r) && list_eqb N.eqb slice (firstn (List.length slice) (k_p0 c)) then
       match r_res r with
-      | RROk arr => Ok (firstn (length slice) arr)
+      | RROk arr => Ok (firstn (List.length slice) arr)
       | RRErr e _ => Err e
       | RRPanic => Panic 1
       | RRHang => OutOfFuel
@@ -65,23 +66,38 @@ Definition oracle (c : case17) (nt : numty) (ws : list value) (ps : list (list v
     else Panic 999               (* the model reads the data differently from what the harness gave the Rust API *)
   end.
 
+(* The model at the generated tables, compiled here with explicit failure (not through Model/FfiInst.v, which
+   does not build when a table cannot be typed): if the translator could not read the source, or an entry
+   cannot be typed, the model has no prediction ([BadArity], never equal to what the C side did), every case
+   fails the correspondence, and the model-free property clause below is still judged on every case. *)
+Definition o_arms : option (list (string * code)) := compile_arms ffi_error_arms.
+Definition o_crash : option code := code_of_name ffi_guard_code.
+Definition inst (name : string) : option centry :=
+  match ffi_translator_errors with [] => compile_named name ffi_entries | _ => None end.
+
 Definition model_outcome (c : case17) : outcome :=
   let p0 := k_p0 c in
   let args := k_params c in
   let geo := fun (d : nat) ps nt ws params s => oracle c nt ws ps params s in
   let num := fun nt ws params s => oracle c nt ws [] params s in
-  match k_entry c with
-  | 0 => entry_geo ffi_arms ffi_crash ffi_rcb geo p0 (k_dim c) (k_points c) (k_weights c) args
-  | 1 => entry_geo ffi_arms ffi_crash ffi_rib geo p0 (k_dim c) (k_points c) (k_weights c) args
-  | 2 => entry_geo ffi_arms ffi_crash ffi_hilbert geo p0 2 (k_points c) (k_weights c) args
-  | 3 => entry_num ffi_arms ffi_crash ffi_greedy num p0 (k_weights c) args
-  | 4 => entry_num ffi_arms ffi_crash ffi_kk num p0 (k_weights c) args
-  | 5 => entry_num ffi_arms ffi_crash ffi_ckk num p0 (k_weights c) args
-  | 6 => entry_fm ffi_arms ffi_crash ffi_fm (fun adj nt ws params s => oracle c nt ws [] params s) p0 (k_adj c) (k_weights c) args
-  | _ =>
-    (* 7: coupe_adjncy_csr's structure check (cell 0 := 1 iff a matrix is returned) is not modelled; the
-       case is judged by prop_ok only (against sprs' own check) *)
-    match k_c c with CRet code arr => Returns COk (Some arr) | _ => UB end
+  match o_arms, o_crash with
+  | Some arms, Some crash =>
+    let on (name : string) (k : centry -> outcome) := match inst name with Some e => k e | None => BadArity end in
+    match k_entry c with
+    | 0 => on "coupe_rcb"%string (fun e => entry_geo arms crash e geo p0 (k_dim c) (k_points c) (k_weights c) args)
+    | 1 => on "coupe_rib"%string (fun e => entry_geo arms crash e geo p0 (k_dim c) (k_points c) (k_weights c) args)
+    | 2 => on "coupe_hilbert"%string (fun e => entry_geo arms crash e geo p0 2 (k_points c) (k_weights c) args)
+    | 3 => on "coupe_greedy"%string (fun e => entry_num arms crash e num p0 (k_weights c) args)
+    | 4 => on "coupe_karmarkar_karp"%string (fun e => entry_num arms crash e num p0 (k_weights c) args)
+    | 5 => on "coupe_karmarkar_karp_complete"%string (fun e => entry_num arms crash e num p0 (k_weights c) args)
+    | 6 => on "coupe_fiduccia_mattheyses"%string
+              (fun e => entry_fm arms crash e (fun adj nt ws params s => oracle c nt ws [] params s) p0 (k_adj c) (k_weights c) args)
+    | _ =>
+      (* 7: coupe_adjncy_csr's structure check (cell 0 := 1 iff a matrix is returned) is not modelled; the
+         case is judged by prop_ok only (against sprs' own check) *)
+      match k_c c with CRet code arr => Returns COk (Some arr) | _ => UB end
+    end
+  | _, _ => BadArity
   end.
 
 Definition is_fm (c : case17) : bool := k_entry c =? 6.
@@ -115,7 +131,7 @@ Definition cut (a : adjacency) (p : list N) : option Z := rows_cut p 0 (a_xadj a
 
 Definition fm_ok_shape (c : case17) (arr : list N) : bool :=
   let n := dlen (k_weights c) in
-  Nat.eqb (length arr) (length (k_p0 c))
+  Nat.eqb (List.length arr) (List.length (k_p0 c))
   && forallb (fun x => x <=? 1) (firstn n arr)
   && list_eqb N.eqb (skipn n arr) (skipn n (k_p0 c))
   && match cut (k_adj c) (firstn n arr), cut (k_adj c) (firstn n (k_p0 c)) with
@@ -170,8 +186,36 @@ Definition prop17 (c : case17) : bool :=
     end
   end.
 
+(* Large data sets (k_entry = 10 + entry; 4095 .. 10000 elements): the data stay in the harness, which compares
+   the C array with the Rust API's array itself; the case carries k_params = [n; representation and tag of the
+   points; representation and tag of the weights; verdict (1 = arrays equal, or for fiduccia_mattheyses the
+   deterministic shape holds); first differing index + 1 (0 = none); number of differing cells; digest of the
+   Rust array; digest of the C array].  Judged here: the code is the documented one for the Rust result and the
+   harness's comparison succeeded.  The model is not evaluated on these cases (corr_ok = prop_ok). *)
+Definition is_large (c : case17) : bool := 10 <=? k_entry c.
+Definition prop_large (c : case17) : bool :=
+  let prm i := nth_opt (k_params c) i in
+  let same := match prm 5%nat, prm 6%nat, prm 8%nat, prm 9%nat with
+              | Some v, Some d, Some h1, Some h2 => (v =? 1) && (d =? 0) && ((k_entry c =? 16) || (h1 =? h2))
+              | _, _, _, _ => false end in
+  match k_c c, k_ref c with
+  | CRet code _, Some r =>
+    match r_res r with
+    | RROk _ => (code =? 0) && same
+    | RRErr e _ =>
+      match documented_code e with
+      | Some d => (code =? code_disc d) && same
+      | None => negb (code =? 0) && negb (code =? code_disc CCrash) && same
+      end
+    | RRPanic => code =? code_disc CCrash
+    | RRHang => true
+    end
+  | _, _ => false
+  end.
+
 Definition eval17 (c : case17) : verdict :=
   let cls := match k_c c with CRet code _ => code | CAbort => 20 | CHang => 21 end in
-  {| corr_ok := corr17 c; prop_ok := prop17 c; cls := cls |}.
+  if is_large c then {| corr_ok := prop_large c; prop_ok := prop_large c; cls := cls |}
+  else {| corr_ok := corr17 c; prop_ok := prop17 c; cls := cls |}.
 
 Definition run17 (cs : list case17) := report (map eval17 cs).
